@@ -178,7 +178,7 @@ def run_property(pid, tier, seed, jobs=None):
             seen_keys.add(key)
 
     if not harness_errors:
-        ctx = mp.get_context("fork")
+        ctx = mp.get_context("forkserver")   # workers are (re)started from a clean single-threaded server: a fork of the main process while it replays a counterexample can inherit a held lock and never start
         n = max(1, min(jobs, len(shapes)))
         pool = ctx.Pool(processes=n, maxtasksperchild=int(getattr(mod, "MAXTASKS", 25)))
         try:
